@@ -82,3 +82,11 @@ Ltac arith_cases :=
          | |- context [?a =? ?b] => destruct (Z.eqb_spec a b)
          end;
   cbn [negb andb orb]; try reflexivity; try lia.
+
+(* LegacyDec.Quo / QuoTruncate / QuoRoundUp: the quotient is computed with twice the precision and chopped *)
+Definition chop_up (x : Z) : Z :=
+  if x <? 0 then - (Z.quot (- x) prec) else if Z.rem x prec =? 0 then Z.quot x prec else Z.quot x prec + 1.
+Definition dec_quo (a b : Z) : Z := chop_round (Z.quot (a * prec * prec) b).
+Definition dec_quo_trunc (a b : Z) : Z := Z.quot (Z.quot (a * prec * prec) b) prec.
+Definition dec_quo_roundup (a b : Z) : Z := chop_up (Z.quot (a * prec * prec) b).
+Definition dec_mul_roundup (a b : Z) : Z := chop_up (a * b).
